@@ -206,6 +206,30 @@ def chain_cases(draw):
     return {"kind": "hostile" if hostile else "plain", "main": main, "data": data, "ternary": False, "expr": e}
 
 
+CODECS = [("base64_encode", "base64_decode"), ("base64_url_safe_encode", "base64_url_safe_decode"), ("url_encode", "url_decode")]
+# filters that leave an encoded string as it is, but may wrap, copy or mark it on the way
+KEEPERS = ["escape", "escape_once", "append: ''", "prepend: ''", "strip", "lstrip", "rstrip", "default: 'z'", "slice: 0, 9999", "replace: '~', '~'",
+           "remove: '~'", "truncate: 9999", "strip_newlines", "split: '~' | join: '~'", "split: '~' | first"]
+
+
+@st.composite
+def roundtrip_cases(draw):
+    """hostile | encode | (text-preserving filters, a capture) | decode: the decoded text is data again and must be escaped."""
+    r = core.rng(draw)
+    enc, dec = r.choice(CODECS)
+    mids = [r.choice(KEEPERS) for _ in range(r.choice([0, 1, 1, 2]))]
+    name = r.choice(["h1", "h2"])
+    if r.random() < 0.4:
+        first = " | ".join([name, enc, *mids[:1]])
+        rest = " | ".join(["c", *mids[1:], dec])
+        src = "{% capture c %}{{ " + first + " }}{% endcapture %}{{ " + rest + " }}"
+    else:
+        chain = " | ".join([name, enc, *mids, dec])
+        src = r.choice(CHAIN_SHAPES[:12]).replace("«E»", chain)
+    data = {"h1": r.choice(HOSTILE), "h2": r.choice(HOSTILE), "h3": "x", "lst": [r.choice(HOSTILE)]}
+    return {"kind": "hostile", "main": [{"k": "src", "v": src}], "data": data, "ternary": False}
+
+
 @st.composite
 def cases(draw):
     r = core.rng(draw)
@@ -250,6 +274,7 @@ def campaign(ctx: core.Ctx, tier: str, shard: int, nshards: int) -> None:
     total = 4000 if tier == "quick" else 120000
     core.drive(cases(), ctx.run, n=max(1, total // nshards), seed=core.sub_seed(ctx.seed, shard))
     core.drive(chain_cases(), ctx.run, n=max(1, (6000 if tier == "quick" else 150000) // nshards), seed=core.sub_seed(ctx.seed, shard, 7))
+    core.drive(roundtrip_cases(), ctx.run, n=max(1, (2000 if tier == "quick" else 40000) // nshards), seed=core.sub_seed(ctx.seed, shard, 8))
 
 
 def finish_kwargs(ctx: core.Ctx, tier: str) -> dict:
@@ -259,7 +284,8 @@ def finish_kwargs(ctx: core.Ctx, tier: str) -> dict:
             "include/render, with, ternary and the t filter, with chains of up to 4 built-in string/array/math filters "
             "(all except safe, newline_to_br, script_tag, stylesheet_tag, date, json, escapejs); template text and "
             "string literals contain no HTML-special characters; data strings come from a pool rich in <>&'\" and "
-            "entity fragments. (A) no raw < > \" ' in the output; (A') every & starts a complete entity, asserted "
+            "entity fragments; plus round-trip chains data | encode | text-preserving filters or a capture | decode "
+            "(base64, url-safe base64, url encoding). (A) no raw < > \" ' in the output; (A') every & starts a complete entity, asserted "
             "when no cutting filter occurs in the template; (B) Markup / __html__ values are output unchanged through "
             "15 shapes; (C) with special characters removed from the data the output is identical with autoescape "
             "off. Non-trivial (A) = a data string with a special character reached the output through a filter or "
